@@ -293,6 +293,9 @@ def run(ctx):
         spec = J.make_spec(K, rng, "general", ["A128KW", a], "A128GCM", plaintext=b"never sent")
         refused(spec, "1pu-kw:second-recipient:%s" % a, "InvalidEncryptionAlgorithmError")
 
+    # falsy-but-valid values of every optional input (aad b"", plaintext b"", {} headers, "" apu / apv / kid / p2s)
+    J.falsy_checks(ctx, K, rng, cases, meta, bump)
+
     # operation sequences on message objects: one object encrypted several times with header edits in between
     J.sequence_checks(ctx, K, rng, cases, meta, bump, pid="C04")
 
